@@ -12,6 +12,7 @@ import os
 import numpy as np
 
 from vf import core
+from vf import callforms
 from vf import solverlib as sl
 
 PROPERTY = "C06"
@@ -288,6 +289,7 @@ def run(ctx):
         "per configuration of the lattice (profile sets x even grids x mode counts, plus odd grids with clamped modes) ALL ny*nx integer shifts / tower cells: "
         "4 identities each (source shift, tower shift, point reflection, re-centring); configurations are distinct lattice points; evaluations counts solver executions"
     )
+    callforms.run_solver_forms(ctx)
     ctx.run_cases(case_translate, configs(ctx.tier), sub="translation", chunksize=1)
     ctx.run_cases(case_halo, halo_configs(ctx.tier), sub="halo-cropped", chunksize=1)
     ctx.run_cases(case_long, long_cases(ctx.tier), sub="off-node points on long grids", chunksize=1)
